@@ -504,7 +504,10 @@ class Lower:
         vals = []
         for v in e.values:
             if type(v).__name__ == "FormattedValueNode":
-                vals.append(ast.FormattedValue(value=self.expr(v.value), conversion=-1, format_spec=None))
+                spec = getattr(v, "format_spec", None)
+                conv = getattr(v, "conversion_char", None)
+                vals.append(ast.FormattedValue(value=self.expr(v.value), conversion=ord(conv) if conv else -1,
+                                               format_spec=self.expr(spec) if spec is not None else None))
             else:
                 vals.append(self.expr(v))
         return ast.JoinedStr(values=vals)
